@@ -29,10 +29,10 @@ class FilenameData(Data):
     _values: bytes | None
 
     def __init__(self, data_type: DataType, file_name=None, **kwargs):
-        if "public" not in kwargs and "Public" not in kwargs:
-            kwargs["public"] = False
-
         super().__init__(data_type, file_name=file_name, **kwargs)
+
+        if "public" not in kwargs and "Public" not in kwargs:
+            self._public = False
 
     @classmethod
     def primitive_type(cls) -> PrimitiveTypeEnum:
